@@ -46,6 +46,7 @@ var positions = []position{
 	{name: "set", tmpl: "{%\x04set\x04q\x03=\x03\x00\x04%}{{ q\x02 }}", types: "isb"},
 	{name: "for", tmpl: "{%\x04for\x04q\x04in\x04[\x03\x00\x03]\x04%}{{ q\x02 }}{%\x04endfor\x04%}", types: "isb"},
 	{name: "include", tmpl: "{%\x04include\x04'p'\x04with\x04{\x03'k'\x03:\x03\x00\x03}\x04%}", sub: "p", types: "isb"},
+	{name: "include-2nd-key", tmpl: "{%\x04include\x04'p'\x04with\x04{\x03'j'\x03:\x030\x03,\x03'k'\x03:\x03\x00\x03}\x04%}", sub: "p", types: "isb"},
 	{name: "filter-arg", tmpl: "{{\x03null|default(\x03\x00\x03)\x02\x03}}", types: "isb"},
 	{name: "function-arg", tmpl: "{{\x03id(\x03\x00\x03)\x02\x03}}", types: "isb"},
 	{name: "macro-arg-self", tmpl: "M{{\x03_self.m(\x03\x00\x03)\x03}}", types: "isb"},
@@ -53,6 +54,10 @@ var positions = []position{
 	{name: "array", tmpl: "{{\x03[\x030\x03,\x03\x00\x03][\x031\x03]\x02\x03}}", types: "isb"},
 	{name: "hash", tmpl: "{{ {\x03'k'\x03:\x03\x00\x03}[\x03'k'\x03]\x02\x03}}", types: "isb"},
 	{name: "index", tmpl: "{{\x03seq[\x03\x00\x03]\x03}}", types: "i"},
+	// the same three behind a 4100-byte comment: templates above 4096 bytes are lexed by another routine
+	{name: "print-long", tmpl: "L{{\x03\x01\x02\x03}}", types: "isb"},
+	{name: "if-long", tmpl: "L{%\x04if\x04\x00\x04%}T{%\x04else\x04%}F{%\x04endif\x04%}", types: "b"},
+	{name: "set-long", tmpl: "L{%\x04set\x04q\x03=\x03\x00\x04%}{{ q\x02 }}", types: "isb"},
 	{name: "for-seq", tmpl: "{%\x04for\x04q\x04in\x04\x00\x04%}{{ q }},{%\x04endfor\x04%}", types: "l"},
 	{name: "set-list", tmpl: "{%\x04set\x04q\x03=\x03\x00\x04%}{% for r in q %}{{ r }},{% endfor %}", types: "l"},
 	{name: "include-list", tmpl: "{%\x04include\x04'p'\x04with\x04{\x03'k'\x03:\x03\x00\x03}\x04%}", sub: "p", types: "l"},
@@ -68,7 +73,9 @@ var forSeq = func() *position {
 }()
 
 // few = the positions used for the largest trees
-var fewPositions = map[string]bool{"print": true, "if": true, "set": true, "for-seq": true}
+var fewPositions = map[string]bool{"print": true, "if": true, "set": true, "for-seq": true, "print-long": true}
+
+var longComment = "{#" + strings.Repeat("x", 4100) + "#}"
 
 type rendering struct {
 	src string
@@ -97,6 +104,9 @@ func build(pos *position, in *inst, st style) rendering {
 		} else {
 			s = macroV + s[1:]
 		}
+	}
+	if s[0] == 'L' {
+		s = longComment + s[1:]
 	}
 	s = strings.NewReplacer("\x00", e, "\x01", cond, "\x02", q, "\x03", opt, "\x04", man).Replace(s)
 	if st.sp == spTight {
@@ -202,6 +212,7 @@ type class struct {
 	k, u int
 	core bool // only the core operators
 	few  bool // only print / if / set
+	mid  bool // five parenthesis/spacing combinations instead of eight
 	rots int  // how many leaf rotations to run (best first)
 	cross bool // every parenthesis style x every spacing, plus all optional-parenthesis subsets
 }
@@ -222,8 +233,8 @@ func classes(thorough bool) []class {
 		{k: 0, u: 0, rots: 12},
 		{k: 0, u: 1, rots: 12}, {k: 1, u: 0, rots: 12},
 		{k: 0, u: 2, rots: 3}, {k: 1, u: 1, rots: 3}, {k: 2, u: 0, rots: 3},
-		{k: 2, u: 1, rots: 1},
-		{k: 3, u: 0, rots: 1},
+		{k: 2, u: 1, rots: 1, mid: true},
+		{k: 3, u: 0, rots: 1, mid: true},
 	}
 }
 
@@ -255,6 +266,9 @@ func styles(c class, nopt uint) []style {
 	}
 	if c.few {
 		return []style{{par: parMin, sp: spNormal}, {par: parMin, sp: spTight}, {par: parFull, sp: spNormal}, {par: parRoot, sp: spWide}}
+	}
+	if c.mid {
+		return []style{{par: parMin, sp: spNormal}, {par: parMin, sp: spTight}, {par: parMin, sp: spWide}, {par: parFull, sp: spNormal}, {par: parRoot, sp: spNormal}}
 	}
 	return []style{
 		{par: parMin, sp: spNormal}, {par: parMin, sp: spTight}, {par: parMin, sp: spWide},
@@ -416,7 +430,7 @@ func runCase(sk *node, c class) *vlib.Outcome {
 					unexplained++
 				}
 				if len(bad) < 40 && (!explained || unexplained == 0) {
-					bad = append(bad, mismatch{in.canon(), cd.v.String(), st.String(), pos.name, r.src, r.sub, got, want})
+					bad = append(bad, mismatch{in.canon(), cd.v.String(), st.String(), pos.name, show(r.src), r.sub, got, want})
 				}
 			}
 		}
@@ -434,7 +448,7 @@ func runCase(sk *node, c class) *vlib.Outcome {
 				o.Counters["renders"]++
 				if got != cd.v.String() || fmt.Sprint(tr) != fmt.Sprint(cd.trace) {
 					unexplained++
-					bad = append(bad, mismatch{in.canon(), cd.v.String(), st.String(), "print (leaves are calls k(i) that log i)", r.src, nil,
+					bad = append(bad, mismatch{in.canon(), cd.v.String(), st.String(), "print (leaves are calls k(i) that log i)", show(r.src), nil,
 						fmt.Sprintf("%s, evaluated leaves %v", got, tr), fmt.Sprintf("%s, evaluated leaves %v", cd.v.String(), cd.trace)})
 				}
 			}
@@ -467,6 +481,11 @@ func runCase(sk *node, c class) *vlib.Outcome {
 		o.Known = "KF-C08-1"
 	}
 	return o
+}
+
+// show abbreviates the 4100-byte comment of the -long positions
+func show(src string) string {
+	return strings.Replace(src, longComment, "{#"+"<4100 times x>"+"#}", 1)
 }
 
 func auxString(a map[string]string) string {
@@ -540,7 +559,7 @@ func main() {
 			for _, c := range classes(tier == "thorough") {
 				s := fmt.Sprintf("%d binary/conditional + %d unary/filter operators: %d leaf rotations", c.k, c.u, c.rots)
 				if c.few {
-					s += ", positions print/if/set/for-seq only"
+					s += ", positions print/print-long/if/set/for-seq only"
 				} else {
 					s += ", all positions"
 				}
